@@ -27,6 +27,7 @@ func SendServiceUsageRequest(
 	if err != nil {
 		return nil, err
 	}
+	defer conn.Close()
 
 	meta, ok := smpeer.FromContext(conn.Context())
 	if !ok {
